@@ -42,7 +42,7 @@ theorem deListLoop_spec {env : Env} (xs : List Bytes) :
     obtain ⟨a', ref, hst, hfree, _⟩ := Arena.store_fit_free r.arena x (by omega)
     unfold deListLoop
     simp only [hst]
-    obtain ⟨_, hf2, hpush⟩ := Rodeo.push_after_store h hst true
+    obtain ⟨_, hf2, hpush⟩ := Rodeo.push_after_store h hst false
     simp only [hf2]
     cases hf : tfind env.hash (r.str env) r.table x with
     | some k =>
